@@ -123,6 +123,60 @@ def kfacdist_binding() -> None:
          not r.ok)
 
 
+def gptdist_binding() -> None:
+    from harness import gptdist, gptrun
+    f = dict(F=1, I=2, accum=1, in_hook=True)
+    cfg1 = kaisa.Config(W=1, k=1, prediv=False, **f)
+    hs, _ = refreplay.gen_behaviours(cfg1, ['Train', 'Step', 'Save', 'Load'],
+                                     [1], [-1], 6, 0, 1, exhaustive=True,
+                                     strict=True)
+    h = [x for x in hs if [y['act'] for y in x][:4] ==
+         ['train', 'step', 'save', 'load'] and x[2]['arg']
+         and 'step' in [y['act'] for y in x[4:]]
+         and not any(y['x'].get('raises') for y in x)][0]
+    cfg = kaisa.Config(W=4, k=1, prediv=False, bucket_cap_mb=0.0,
+                       gpt={'D': 2, 'M': 2}, **f)
+    out = gptrun.replay(cfg, h, 3, simdist.LazyCompletion(3))
+    kc = out['kcase']
+    r = gptdist.check_cases([kc], invariants=['DesignOK'] + gptdist.CLAUSES
+                            + ['Conforms', 'NGConforms'])
+    item('GptDist accepts a real D=2 x M=2 execution (clauses + Conforms)',
+         r.ok, str(r.violated))
+    bad = copy.deepcopy(kc)
+    j = next(i for i, o in enumerate(bad['trace'][0])
+             if o['kind'] == 'broadcast' and len(o['grp']) == 2
+             and o['grp'] == {0, 2})
+    bad['trace'][0][j]['root'] = 1
+    r = gptdist.check_cases([bad], invariants=['T_GradBcast'])
+    item('GptDist rejects a gradient broadcast from a foreign root', not r.ok)
+    bad = copy.deepcopy(kc)
+    j = next(i for i, o in enumerate(bad['trace'][1])
+             if o['kind'] == 'all_gather')
+    bad['trace'][1][j]['grp'] = {1, 3}
+    r = gptdist.check_cases([bad], invariants=['T_ShardTraffic'])
+    item('GptDist rejects a shard gather outside the model-parallel group',
+         not r.ok)
+    bad = copy.deepcopy(kc)
+    j = next(i for i, o in enumerate(bad['trace'][2]) if o['kind'] == 'barrier')
+    del bad['trace'][2][j]
+    r = gptdist.check_cases([bad], invariants=['T_SaveLoad'])
+    item('GptDist rejects a rank that skips a save / load barrier', not r.ok)
+    bad = copy.deepcopy(kc)
+    j = next(i for i, o in enumerate(bad['trace'][3])
+             if o['kind'] == 'all_reduce' and o['cls'] == 'f'
+             and len(o['grp']) == 4)
+    del bad['trace'][3][j]
+    r1 = gptdist.check_cases([bad], invariants=['T_Match'])
+    r2 = gptdist.check_cases([bad], invariants=['Conforms'])
+    item('GptDist rejects a dropped factor reduction (T_Match, Conforms)',
+         (not r1.ok) and (not r2.ok))
+    bad = copy.deepcopy(kc)
+    bad['ngtrace'][1] = list(reversed(bad['ngtrace'][1]))
+    bad['ngtrace'][1][0]['at'], bad['ngtrace'][1][-1]['at'] = 9, 0
+    r = gptdist.check_cases([bad], invariants=['T_NGSame'])
+    item('GptDist rejects group creation that differs between ranks', not r.ok)
+
+
 def kfacref_binding() -> None:
     cfg = kaisa.Config(F=1, I=2, model='mlp2', prediv=False)
     hs, _ = refreplay.gen_behaviours(cfg, ['Train', 'Step'], [1], [-1], 4, 0,
@@ -175,6 +229,7 @@ def vacuity() -> None:
 def main() -> int:
     comm_binding()
     kfacdist_binding()
+    gptdist_binding()
     kfacref_binding()
     vacuity()
     bad = [n for n, ok, _ in RESULTS if not ok]
